@@ -1261,8 +1261,8 @@ def judge_stream(ops_ser, acc_name, ncores, words, evs):
     for i, (o, ev) in enumerate(zip(ops_ser, opev)):
         for f, want, got in judge(o["api"], o["cls"], acc_name, ncores, ev):
             out.append((i, f, want, got))
-    if "u65" in acc_name:
-        first = opev[0][3] if opev else {}
+    if "u65" in acc_name and opev:
+        first = opev[0][3]
         if first.get(regs()["0:SET_PARALLEL_MODE"]) != ncores - 1:
             out.append((0, "parallel mode (cores - 1)", ncores - 1, first.get(regs()["0:SET_PARALLEL_MODE"])))
     return out
